@@ -354,6 +354,15 @@ func checkBidStrategy(p *core.Prog, r *core.Report, ds *core.Describer, rel stri
 		switch id.Name {
 		case "WinningParticipation":
 			nonZero := func(c core.Cond) int {
+				// score.Sign() != 0
+				if c.Op != "" && c.X != nil && c.X.Kind == "call" && strings.HasSuffix(c.X.Name, "big.Int.Sign") && c.Y != nil && c.Y.Kind == "const" && c.Y.Name == "0" {
+					for s := 0; s < 2; s++ {
+						if c.RelOnEdge(s) == "!=" {
+							return s
+						}
+					}
+					return -1
+				}
 				if c.Op == "" || !isBigCmp(c.X) || c.Y.Kind != "const" || c.Y.Name != "0" {
 					return -1
 				}
@@ -407,7 +416,7 @@ func checkBidStrategy(p *core.Prog, r *core.Report, ds *core.Describer, rel stri
 		case "Providers":
 			d := ds.D(st.Val)
 			// replaced (slice literal of one element) on the winner arm, appended on the bidsEqual arm
-			if call, ok := st.Val.(*ssa.Call); ok {
+			if call, ok := st.Val.(*ssa.Call); ok && !isResetAppend(st.Val) {
 				if b, ok := call.Call.Value.(*ssa.Builtin); ok && b.Name() == "append" {
 					w := core.Unguarded(ds, setter, nil, isSt, func(c core.Cond) int {
 						if c.B != nil && strings.Contains(c.B.String(), "bidsEqual") {
@@ -447,7 +456,7 @@ func checkBidStrategy(p *core.Prog, r *core.Report, ds *core.Describer, rel stri
 		for _, x := range st.Block().Instrs {
 			if s2, ok := x.(*ssa.Store); ok {
 				if id2, _, ok := core.FieldOfAddr(s2.Addr); ok && id2.Name == "Providers" {
-					if _, isAppend := s2.Val.(*ssa.Call); !isAppend {
+					if _, isAppend := s2.Val.(*ssa.Call); !isAppend || isResetAppend(s2.Val) {
 						reset = true
 					}
 				}
@@ -983,4 +992,18 @@ func checkVerifiedStateOnly(p *core.Prog, r *core.Report, ds *core.Describer, ru
 		}
 	}
 
+}
+
+// isResetAppend: append(x[:0], v…) — the list is emptied and refilled, a replacement written to re-use the backing array.
+func isResetAppend(v ssa.Value) bool {
+	call, ok := v.(*ssa.Call)
+	if !ok {
+		return false
+	}
+	b, ok := call.Call.Value.(*ssa.Builtin)
+	if !ok || b.Name() != "append" || len(call.Call.Args) == 0 {
+		return false
+	}
+	sl, ok := call.Call.Args[0].(*ssa.Slice)
+	return ok && sl.Low == nil && sl.High != nil && core.IsIntConst(sl.High, 0)
 }
